@@ -14,6 +14,24 @@ CHECKS["C15"] = ("exploration", "runtime round-trip / random-access / bytes roun
 CHECKS["C14"] = ("exploration", "after-every-operation cross-accessor invariant walker against a reference model graph",
   "Random mutation histories on the real LpgStore (all mutating calls, mixed value types, index create/drop, statistics, zone-map rebuild, with/without backward adjacency, hub histories crossing the 64/256 adjacency thresholds); after every operation every accessor is compared with a plain reference model, zone-map pruning is probed for soundness, GrafeoDB::validate() must report exactly the dangling references. Held = all accessors agreed with the model at every prefix of every history run.",
   "Single-threaded, epoch 0 (no transactions): concurrency is C20's, MVCC visibility is C01's. Range finder and `<>` pruning are judged with same-kind comparison only (mixed Int/Float is C10's differential).", "DESIGN.md §4 C14")
+CHECKS["C01"] = ("exploration", "session-history cell matrix judged by a snapshot reference model (runtime oracle on every read)",
+  "Every combination of 17 write kinds x 26 read paths x 8 isolation scenarios (14 observation points) x 2 epoch regimes is executed on a fresh database through real sessions; each read is compared with the reference model's answer in the state the reader is entitled to see. Cells that fail today are listed under open findings with the exact observed outcome (hash of the wrong answer), so any change of behaviour in any cell - a new leak, or a known one moving - is a violation. Held = every cell matched the model or its recorded known outcome.",
+  "Statement-granularity interleavings on one thread; one small fixture graph; cells enumerate kinds of writes/reads, not all inputs of a kind. Real threads are C20's.", "DESIGN.md §4 C01")
+CHECKS["C02"] = ("exploration", "before/after comparison around every transaction ending through all read paths + per-write visibility probes on random multi-write transactions; commit failure injected through a fail-point hook",
+  "The cell matrix for the endings rollback / dropped session / failed commit (txmgr.commit fail point) / successful commit x every write kind x every read path x both regimes, plus seeded random transactions of 2-7 independent mutations whose every write is probed from a later observer: nothing may survive an abort, nothing may be lost by a commit. Held = every cell and every probe agreed with the all-or-nothing model or its recorded known outcome.",
+  "Same fixture and granularity as C01; the failed commit is injected (query operators never register writes, so no natural conflict can occur).", "DESIGN.md §4 C02")
+CHECKS["C05"] = ("exploration", "reopen histories on a real on-disk database compared with a persistent reference model; deviation rules replay the engine's log from hook-reported record/rotation events",
+  "Random histories of every mutating API call and mutating session statements, interleaved with checkpoints, explicit and size-triggered rotations, syncs and 1-4 close/reopen cycles under all four durability modes; after every reopen the full dump (ids, labels, endpoints, bit-exact values) is compared with the model and fresh ids are checked for collisions. Known data-loss defects are expressed as named rules on a simulated log; an observation must equal the specification or exactly what the open rules predict.",
+  "Local filesystem; histories <= 60 operations per cycle; the log simulation trusts the hook event stream (wal.record / wal.rotate / wal.ckpt.renamed) for the placement of records in files.", "DESIGN.md §4 C05")
+CHECKS["C06"] = ("fault_enumeration", "crash-image enumeration over a recorded WAL byte timeline, each image reopened by the real engine and continued",
+  "For each recorded history: after every step the WAL directory bytes, per-file fsync coverage (wal.sync events) and reference state are captured; crash images (all written / only synced / one file unsynced-lost / cuts at and inside the last records of every file / old metadata with complete or torn temp file / rotated file absent / single-bit flips) are materialised, opened, compared with 'some prefix no older than the last durability point' and with the exact prediction of the open findings, and a quarter are continued (write, close, reopen).",
+  "Crash model = per-file prefix + rename atomicity; no reordering inside a file; length-prefix bit flips excluded (need process isolation); images sampled per instant, not all byte offsets.", "DESIGN.md §4 C06")
+CHECKS["C07"] = ("exploration", "copy comparator over history-generated sources for four copy routes + hostile-bytes import in an isolated child process judged by an independent decoder",
+  "Sources built by mutation histories (all value types, nested values, committed/rolled-back transactions, sparse ids) are copied by export/import, to_memory, save+open and open_in_memory; dumps and a query battery must agree, the source must be unchanged, export deterministic, fresh ids collision-free. Every truncation, bit flips, inflated lengths and random bytes of small valid snapshots are imported in a child under RLIMIT_AS: no panic, no abort, invalid bytes rejected, valid ones imported faithfully.",
+  "Graphs <= ~60 entities; validity decided by a mirror of the published layout; memory bound is a 4 GiB address-space limit.", "DESIGN.md §4 C07")
+CHECKS["C18"] = ("exploration", "runtime result validators for every search (membership, true distance under an f64 reference with a sound error bound, order, length where reachability is provable), kernel differential, quantiser bounds, batch vs single",
+  "HNSW / quantized HNSW / engine vector index histories (insert, re-insert, remove, search, batch) over 12 dimensions, 4 metrics, k/ef edge values and extreme vectors; every returned list is validated clause by clause; every public distance kernel is compared with the f64 definition on a directed dims x magnitude matrix and random pairs; exact search must return the true k nearest; quantisers are held to their documented bounds.",
+  "'returns k when k reachable' is only demanded where reachability follows from the public API (small insert-only indexes); approximate recall is not demanded.", "DESIGN.md §4 C18")
 NOT_YET = {}
 
 def main():
